@@ -77,6 +77,12 @@ def corpus():
     # retention: late sharer gets the stored exception
     out.append(G.mk(dict(c1, rt=20), [['call', 0, None], ['adv', 10], ['raise', 0, 3], ['adv', 19],
                                       ['call', 5, 0], ['adv', 1], ['call', 0, None], ['adv', 10], ['fin', 1]]))
+    # the batch function is a plain callable that raises when CALLED (before any async iteration): still "the batch
+    # function raises" — every caller of the batch gets that exception, the next batch gets the slot
+    out.append(G.mk(c1, [['burst', [[0, None], [1, None], [2, None], [3, None]]], ['raise', 0, 1, 'sync'],
+                         ['adv', 10], ['raise', 1, 2, 'sync'], ['call', 4, None], ['adv', 10], ['raise', 2, 0, 'sync']]))
+    out.append(G.mk(dict(c1, rt=20), [['chain', 0, None, 2], ['adv', 10], ['raise', 0, 3, 'sync'], ['adv', 30],
+                                      ['call', 0, None], ['adv', 10], ['fin', 1]]))
     # the explicit EMPTY key '' (falsy): one request for all three args, answered with what is yielded for ''
     E = D.EMPTY_KEY
     out.append(G.mk(c1, [['burst', [[1, E], [2, E], [3, E], [2, None]]], ['adv', 10], ['yield', 0, E, 'v', 9],
